@@ -156,6 +156,8 @@ fn gen_gs(rng: &mut Rng, name: &str) -> Gs {
         annotations.insert("example.org/note".to_string(), format!("n{}", rng.below(1000)));
     }
     let shape = rng.below(14);
+    // several game servers on one node, also with the same host port (legal with port policy None / Passthrough)
+    let shared_node = rng.chance(1, 5);
     Gs {
         name: name.to_string(),
         state: (*rng.pick(STATES)).to_string(),
@@ -164,10 +166,12 @@ fn gen_gs(rng: &mut Rng, name: &str) -> Gs {
             1 => Some(String::new()),               // empty address
             2 => Some("node-7.internal".into()),    // host name, not an IP
             3 => Some(format!("fd00::{:x}", rng.range(1, 0xffff))),
+            _ if shared_node => Some("10.0.0.1".into()),
             _ => Some(format!("10.{}.{}.{}", rng.below(256), rng.below(256), rng.range(1, 254))),
         },
         ports: match shape {
             4 => vec![],
+            _ if shared_node => vec![7000 + rng.below(2) as u16],
             5 => vec![rng.range(1, 65535) as u16, rng.range(1, 65535) as u16],
             _ => vec![rng.range(1, 65535) as u16],
         },
